@@ -70,6 +70,23 @@ func digest(db detection.SignatureDatabase) string {
 	return hex.EncodeToString(h[:])
 }
 
+// savedVersion reads the file a save has just been acknowledged for (no writer is active):
+// the version it holds, or -1.
+func savedVersion(path string, digests map[string]int) (int, string) {
+	b, err := os.ReadFile(path)
+	if err != nil {
+		return -1, err.Error()
+	}
+	var db detection.SignatureDatabase
+	if err := json.Unmarshal(b, &db); err != nil {
+		return -1, "does not parse: " + err.Error()
+	}
+	if v, ok := digests[digest(db)]; ok {
+		return v, ""
+	}
+	return -1, "holds no known version"
+}
+
 type readerReport struct {
 	Reads      int            `json:"reads"`
 	Versions   map[int]int    `json:"versions"` // version -> reads
@@ -223,6 +240,12 @@ func runConcurrentReaders(res *evid.Result) {
 		res.Violate("save/error", "initial save failed: "+err.Error(), nil)
 		return
 	}
+	// the scanner was filled by LoadDatabase from ANOTHER file and never touched since: saving
+	// it to this path still has to produce the file
+	if v, why := savedVersion(path, digests); v != 0 {
+		res.Violate("save/acknowledged-but-not-written", fmt.Sprintf("SaveDatabase(%s) of a scanner loaded from another file returned nil, but afterwards the target %s (holds version %d, want 0)", filepath.Base(path), why, v), nil)
+		return
+	}
 	digFile, stopFile, repFile, readyFile := filepath.Join(dir, "digests"), filepath.Join(dir, "stop"), filepath.Join(dir, "report"), filepath.Join(dir, "ready")
 	b, _ := json.Marshal(digests)
 	os.WriteFile(digFile, b, 0o600)
@@ -238,7 +261,11 @@ func runConcurrentReaders(res *evid.Result) {
 	go func() { done <- readLoop(path, digests, stop.Load, &prog) }()
 
 	// start saving only when both readers have completed a read (no wall-clock involved)
-	for prog.Load() == 0 {
+	for k := 0; prog.Load() == 0; k++ {
+		if k > 60000 {
+			res.Broken = "the reader never completed a read of an existing, valid file"
+			return
+		}
 		syscall.Nanosleep(&syscall.Timespec{Nsec: 1e6}, nil)
 	}
 	for i := 0; childOK && i < 5000; i++ {
@@ -255,6 +282,9 @@ func runConcurrentReaders(res *evid.Result) {
 		}
 		if err := p.sc.SaveDatabase(path); err != nil {
 			res.Violate("save/error", fmt.Sprintf("SaveDatabase of V%d failed without any fault: %v", i, err), nil)
+		} else if v, why := savedVersion(path, digests); v != i {
+			// single saver: between the acknowledgement and the next save nobody writes
+			res.Violate("save/acknowledged-but-not-written", fmt.Sprintf("SaveDatabase of V%d returned nil, but afterwards the file %s (holds version %d)", i, why, v), nil)
 		}
 	}
 	stop.Store(true)
@@ -348,11 +378,19 @@ func runConcurrentSavers(res *evid.Result) {
 		res.Violate("save/error", "initial save failed: "+err.Error(), nil)
 		return
 	}
+	if v, why := savedVersion(path, digests); v != 5000 {
+		res.Violate("save/acknowledged-but-not-written", fmt.Sprintf("SaveDatabase of a scanner loaded from another file returned nil, but afterwards the target %s (holds version %d, want 5000)", why, v), nil)
+		return
+	}
 	var stop atomic.Bool
 	var prog atomic.Int64
 	done := make(chan readerReport, 1)
 	go func() { done <- readLoopOrd(path, digests, stop.Load, &prog, false) }()
-	for prog.Load() == 0 {
+	for k := 0; prog.Load() == 0; k++ {
+		if k > 60000 {
+			res.Broken = "the reader never completed a read of an existing, valid file"
+			return
+		}
 		syscall.Nanosleep(&syscall.Timespec{Nsec: 1e6}, nil)
 	}
 	type saveErr struct {
